@@ -14,8 +14,9 @@ RULE = ('magnets = constructor keyword sets (hash in 4 notations and mixed case,
         'a reserved-character / control-character / non-ASCII / non-BMP / percent-lookalike alphabet; xl up to 10^30; '
         '0-5 trackers and webseeds incl. spaces, duplicates; xs; keywords with + % & and non-ASCII), about a quarter '
         'with as_ / x_ parameters / empty dn / empty keywords (the open findings); render -> parse -> field-wise '
-        'comparison; mangled links for the parser model; torrents (single/multi file, tiers, webseeds) -> magnet() -> '
-        'str -> from_string -> torrent(). non-trivial = the rendered link needs percent-quoting or has a multi-valued '
+        'comparison, then every field of the parsed object is edited and the unchanged magnet is rendered and parsed a '
+        'second time (same comparison); mangled links for the parser model (each parsed twice with an edit between); torrents (single/multi file, tiers, webseeds) -> magnet() -> '
+        'str -> from_string -> torrent(), twice with edits of the parsed magnet / torrent between. non-trivial = the rendered link needs percent-quoting or has a multi-valued '
         'parameter; distinct = distinct rendered link')
 
 FIELDS = ('infohash', 'dn', 'xl', 'tr', 'xs', 'as_', 'ws', 'kt', 'x')
@@ -98,6 +99,27 @@ def fields(m):
             'x': [[k, v] for k, v in m.x.items()]}
 
 
+def edit_magnet(m):
+    """what a caller may do with a parsed magnet: change every field in place (setters, list methods, dict item).
+    Returns the number of edits that went through."""
+    n = 0
+    for f in (lambda: setattr(m, 'dn', (m.dn or '') + ' (edited)'),
+              lambda: setattr(m, 'xl', (m.xl or 0) + 1),
+              lambda: m.tr.append('http://edited.example/announce'),
+              lambda: m.tr.insert(0, 'http://edited.example/first') if len(m.tr) > 1 else m.tr.clear(),
+              lambda: m.ws.clear() if m.ws else m.ws.append('http://edited.example/seed'),
+              lambda: setattr(m, 'xs', 'http://edited.example/x.torrent'),
+              lambda: setattr(m, 'kt', ['edited'] + list(m.kt or [])),
+              lambda: m.x.__setitem__('edited', '1'),
+              lambda: setattr(m, 'infohash', 'ef' * 20)):
+        try:
+            f()
+            n += 1
+        except Exception:  # noqa
+            pass
+    return n
+
+
 def _run_magnet_chunk(cases):
     torf = common.import_torf()
     out = []
@@ -123,6 +145,17 @@ def _run_magnet_chunk(cases):
             o['parsed'] = fields(m2)
         except BaseException as e:  # noqa
             o['parse_exc'] = mg.errkind(e)
+            out.append(o)
+            continue
+        # history: the caller edits the parsed object, then the *unchanged* m is rendered and parsed again
+        try:
+            o['edits'] = edit_magnet(m2)
+            o['original_after_edit'] = fields(m)
+            s2 = str(m)
+            o['uri_again'] = s2
+            o['parsed_again'] = fields(torf.Magnet.from_string(s2))
+        except BaseException as e:  # noqa
+            o['again_exc'] = mg.errkind(e)
         out.append(o)
     return out
 
@@ -301,6 +334,18 @@ def eval_magnets(ctx, drv, kws):
             ctx.violation('Magnet.from_string(str(m)) does not give back the fields of m', case, f, observed,
                           finding_matchers=MATCHERS)
             continue
+        # --- ... independent of what was done to earlier results: after the first parsed object was edited in every
+        #     field, rendering the unchanged m and parsing again must give the fields of m once more
+        if o.get('original_after_edit') != f or o.get('uri_again') != uri or o.get('parsed_again') != f:
+            again = o.get('parsed_again')
+            observed = {'again_exc': o.get('again_exc'), 'uri_again_same': o.get('uri_again') == uri,
+                        'original_changed': _diff(f, o.get('original_after_edit') or {}),
+                        'parsed_again': again, 'differs': _diff(f, again or {})}
+            ctx.violation('second round trip of the same magnet in one process: after the first parsed object was edited, '
+                          'Magnet.from_string(str(m)) of the unchanged m no longer gives back the fields of m', case, f,
+                          observed, finding_matchers=MATCHERS)
+            continue
+        ctx.dist['magnet/second-round-trip-after-edit'] += 1
         if not r['hyp']:
             ctx.dist['outside-wf-but-round-trips'] += 1
             continue
@@ -352,9 +397,17 @@ def _parse_real_chunk(uris):
     out = []
     for u in uris:
         try:
-            out.append({'parsed': fields(torf.Magnet.from_string(u))})
+            m = torf.Magnet.from_string(u)
+            o = {'parsed': fields(m)}
         except BaseException as e:  # noqa
             out.append({'exc': mg.errkind(e)})
+            continue
+        try:
+            edit_magnet(m)
+            o['again'] = fields(torf.Magnet.from_string(u))
+        except BaseException as e:  # noqa
+            o['again'] = {'exc': mg.errkind(e)}
+        out.append(o)
     return out
 
 
@@ -381,6 +434,14 @@ def eval_parser(ctx, drv, uris):
     obs = [o for ch in common.pmap(_parse_real_chunk, common.split(uris, common.NPROC * 4)) for o in ch]
     for u, r, o in zip(uris, replies, obs):
         ctx.case(key=('p', u), nontrivial=True, kind='parser/' + ('modelled' if r['hyp'] else 'not-modelled'))
+        if 'parsed' in o and o.get('again') != o['parsed']:
+            # from_string is a function of the string (the model is one): a second parse of the same text must not
+            # depend on what the caller did to the first result
+            ctx.violation('parsing the same link twice: after the first parsed object was edited the second parse gives '
+                          'different fields', {'kind': 'parser', 'uri': u}, o['parsed'],
+                          {'again': o.get('again'), 'differs': _diff(o['parsed'], o['again']) if 'exc' not in (o.get('again') or {'exc': 1}) else None},
+                          finding_matchers=MATCHERS)
+            continue
         if not r['hyp']:
             continue
         m = r['model']
@@ -449,6 +510,24 @@ def _run_torrent_chunk(specs):
             o['back'] = _view(t2)
         except BaseException as e:  # noqa
             o['exc'] = mg.errkind(e)
+            out.append(o)
+            continue
+        # history: the user edits a parsed copy of the link (and the torrent made from it), then exports the
+        # unchanged torrent a second time
+        try:
+            p = torf.Magnet.from_string(o['uri'])
+            o['edits'] = edit_magnet(p)
+            try:
+                t2.name = 'edited'
+                t2.trackers = ['http://edited.example/t']
+                t2.webseeds = ['http://edited.example/w']
+            except Exception:  # noqa
+                pass
+            o['torrent_after_edit'] = _view(t)
+            o['uri2'] = str(t.magnet())
+            o['back2'] = _view(torf.Magnet.from_string(o['uri2']).torrent())
+        except BaseException as e:  # noqa
+            o['exc2'] = mg.errkind(e)
         out.append(o)
     return out
 
@@ -481,6 +560,13 @@ def eval_torrents(ctx, drv, specs):
                           'tracker order and webseeds', case, t, {k: o.get(k) for k in ('back', 'exc', 'uri')},
                           finding_matchers=MATCHERS)
             continue
+        if o.get('torrent_after_edit') != t or o.get('uri2') != o.get('uri') or o.get('back2') != t:
+            ctx.violation('second export of an unchanged torrent in one process: after the magnet parsed from the first link '
+                          '(and the torrent made from it) were edited, Torrent.magnet() -> str -> from_string -> torrent() no '
+                          'longer preserves infohash, name, size, tracker order and webseeds', case, t,
+                          {k: o.get(k) for k in ('back2', 'exc2', 'uri2', 'torrent_after_edit')}, finding_matchers=MATCHERS)
+            continue
+        ctx.dist['torrent/second-round-trip-after-edit'] += 1
         if not r['hyp']:
             continue
         m = r['model']
